@@ -235,7 +235,10 @@ def percolate_space(
 
     percolated = Percolation.percolate_subspace(network, space)
     result: BooleanSpace = {}
-    for var, value in percolated.items():
+    # The iteration order of the returned dictionary is not deterministic. We sort
+    # the items so that the result (and everything derived from it, like the order
+    # in which retained set variables are optimized) is always the same.
+    for var, value in sorted(percolated.items()):
         var_name = network.get_network_variable_name(var)
         result[var_name] = cast(Literal[0, 1], int(value))
     return result
